@@ -119,7 +119,7 @@ func (p c13) Gen(seed uint64, enum int, tier string) json.RawMessage {
 			s.Query = s.Query + " " + others[j]
 		}
 	}
-	s.Entry = []string{"do", "plan"}[r.Intn(2)]
+	s.Entry = []string{"do", "plan", "cache", "cache-norm"}[r.Intn(4)]
 	s.Order = uint32(r.Intn(4))
 	s.Salt = r.Uint64() % 1000
 	// the fault-free run tells which response paths exist
@@ -189,7 +189,16 @@ func (c13) Run(t TestingT, scn json.RawMessage, tape *Tape) *Outcome {
 	rc := &ReqCtx{Task: "c1", W: w, Faults: sc.Faults, AllThunk: sc.AllThunk, RootTok: Tok{T: "Mutation"}}
 	ctx := WithReq(context.Background(), rc)
 	var res *graphql.Result
-	if sc.Entry == "plan" {
+	if sc.Entry == "cache" || sc.Entry == "cache-norm" {
+		cache := graphql.NewPlanCache(graphql.PlanCacheOptions{Normalize: sc.Entry == "cache-norm"})
+		// the second Get is a hit: the plan that executes is the cached one
+		cache.Get(&w.Schema, sc.Query, sc.Op)
+		pr := cache.Get(&w.Schema, sc.Query, sc.Op)
+		if pr.Plan == nil {
+			return &Outcome{Infra: "generated mutation is rejected by the plan cache: " + MarshalResult(&graphql.Result{Errors: pr.Errors}) + " query: " + sc.Query}
+		}
+		res = graphql.ExecutePlan(pr.Plan, graphql.ExecuteParams{Schema: w.Schema, Args: pr.SynthArgs, Context: ctx})
+	} else if sc.Entry == "plan" {
 		doc, err := parseDoc(sc.Query)
 		if err != nil {
 			return &Outcome{Infra: "generated mutation does not parse: " + err.Error()}
